@@ -83,3 +83,20 @@ package results
 //@   props C06 C11
 //@   ensures[fresh-empty-result] result != nil && len(result.FindLocVec) == 0 && streq(result.StrFile, strFile) && result.findSymbol == nil
 //@ end
+
+// ---- C18: how a require / dofile argument is turned into candidate paths ----
+// A suffix-less module path is normalised ("." -> "/") once; every probe (native .so, .lua, /init.lua, fuzzy match) uses the
+// normalised path, in both the full-path and the fuzzy configuration; a suffixed path is probed as written. The
+// "not find file" diagnostic (type 6) is only produced by the first pass.
+//@ func (*FileResult).CheckReferFile
+//@   props C18
+//@   requires fileIndexInfo != nil && referInfo != nil
+//@   at call strings.Replace#0 before assert[module-path-normalises-dots-to-slashes] arg0 == strFile && streq(arg1, ".") && streq(arg2, "/") && arg3 == -1
+//@   at call MatchAllDirReferFile#* before assert[probes-use-the-normalised-module-path] arg1 == curFile
+//@        && (arg2 == concat(strNewFile, ".so") || arg2 == concat(strNewFile, ".lua") || arg2 == concat(strNewFile, "/init.lua"))
+//@   at call MatchCompleteReferFile#0 before assert[suffixed-path-is-probed-as-written] arg1 == curFile && arg2 == strFile && suffixFlag
+//@   at call GetBestMatchReferFile#0 before assert[suffixed-path-fuzzy-match-as-written] arg0 == curFile && arg1 == strFile && suffixFlag && arg2 == allFilesMap && arg3 == fileIndexInfo
+//@   at call GetBestMatchReferFile#1 before assert[module-fuzzy-match-uses-the-normalised-path] arg0 == curFile && arg1 == strNewFile && !suffixFlag && arg2 == allFilesMap && arg3 == fileIndexInfo
+//@   at call GetBestMatchReferFile#2 before assert[package-init-fuzzy-match-uses-the-normalised-path] arg0 == curFile && arg1 == concat(strNewFile, "/init.lua") && !suffixFlag
+//@   at call InsertError#* before assert[missing-file-diagnostic-only-in-the-first-pass] arg1 == common.CheckErrorNoFile && f.checkTerm == CheckTermFirst && arg3 == referInfo.Loc
+//@ end
